@@ -6,7 +6,7 @@ from __future__ import annotations
 import ast
 
 from ..core import AnalysisError, dotted
-from ..lexmodel import LexModel, ANY
+from ..lexprobe import LexProbe
 from ..pe import Interp
 
 level = "other"
@@ -43,8 +43,8 @@ def check(chk, repo, tier):
     alph = {n: enc.get(n) for n in ("codepage_number_compress",
                                     "codepage_string_compress",
                                     "base_27_alphabet", "compression")}
-    lm = LexModel(repo, it)
-    kind_heads = lm.kind_heads()
+    lp = LexProbe(repo, it)
+    kind_heads = {k: lp.heads_of(k) for k in lp.kinds}
 
     # ---- (A1) no repeated symbol; (A2) delimiter excluded ----------------------
     delim = {"codepage_number_compress": "»", "codepage_string_compress": "«",
